@@ -165,10 +165,12 @@ pub struct Trace {
     pub completion: String,
     /// human-readable error text (never compared)
     pub detail: String,
+    /// result of draining the job queue after the evaluation ("ok" / "err <class>")
+    pub jobs: String,
 }
 impl Trace {
     pub fn to_json(&self) -> serde_json::Value {
-        serde_json::json!({"out": self.out, "completion": self.completion, "detail": self.detail})
+        serde_json::json!({"out": self.out, "completion": self.completion, "detail": self.detail, "jobs": self.jobs})
     }
 }
 
@@ -180,8 +182,11 @@ pub fn eval_in(ctx: &mut Context, src: &[u8]) -> Trace {
         Ok(v) => (format!("ok {}", render_value(&v, ctx)), String::new()),
         Err(e) => (format!("err {}", render_error(&e, ctx)), format!("{e}")),
     };
-    let _ = ctx.run_jobs();
-    Trace { out: take_out(), completion, detail }
+    let jobs = match ctx.run_jobs() {
+        Ok(()) => "ok".to_string(),
+        Err(e) => format!("err {}", render_error(&e, ctx)),
+    };
+    Trace { out: take_out(), completion, detail, jobs }
 }
 
 /// Run with a panic guard. A Rust panic is rendered as completion "panic <message>".
@@ -192,7 +197,7 @@ pub fn guarded<F: FnOnce() -> Trace + std::panic::UnwindSafe>(f: F) -> Trace {
             let msg = if let Some(s) = p.downcast_ref::<&str>() { s.to_string() }
                 else if let Some(s) = p.downcast_ref::<String>() { s.clone() } else { "?".into() };
             let out = take_out();
-            Trace { out, completion: format!("panic {msg}"), detail: String::new() }
+            Trace { out, completion: format!("panic {msg}"), detail: String::new(), jobs: String::new() }
         }
     }
 }
